@@ -72,11 +72,11 @@ class TreeCase:
             if ch.chance(0.2, f"t.{f}.recycle"):
                 self.funs.append((f"check_t{f}(uint256,uint256,uint256)", self._recycle_tree(f"t.{f}.r")))
                 continue
-            if ch.chance(0.2, f"t.{f}.chain"):
+            if ch.chance(0.25, f"t.{f}.chain"):
                 # exclusion chain: an unsatisfiable leaf whose unsat core needs 20-45 conditions (solvers wrap long cores over lines)
                 self.funs.append((f"check_t{f}(uint256,uint256,uint256)",
-                                  ("chain", ch.choose([22, 30, 45], f"t.{f}.n"), ch.pick(3, f"t.{f}.arg"), ch.chance(0.5, f"t.{f}.sq"),
-                                   ch.chance(0.5, f"t.{f}.order"), ch.choose([None, None, "fall", "jump"], f"t.{f}.early"))))
+                                  ("chain", ch.choose([22, 45, 60], f"t.{f}.n"), ch.pick(3, f"t.{f}.arg"), ch.chance(0.5, f"t.{f}.sq"),
+                                   ch.chance(0.5, f"t.{f}.order"), ch.choose([None, "fall", "jump"], f"t.{f}.early"))))
                 continue
             depth = ch.int(3, 4, f"t.{f}.depth")
             self.funs.append((f"check_t{f}(uint256,uint256,uint256)", self._node(depth, f"t.{f}")))
@@ -122,10 +122,11 @@ class TreeCase:
         _, n, i, sq, feasible_first, early = node
         out = a.fresh("out")
         if early:
-            # the condition that tells the satisfiable path from the unsatisfiable one comes *first* (a no-op diamond on x == 1);
+            # the condition that tells the satisfiable path from the unsatisfiable one comes *first* (a no-op diamond on x & 1 == 1);
             # everything after it - the whole chain and the final test - is shared by both
             j = a.fresh("dia")
-            _arg(a, i); a.push(1).op("EQ")
+            # (x & 1 == 1, not x == 1: halmos would substitute the constant for x and fold the whole chain away on that side)
+            a.push(1); _arg(a, i); a.op("AND"); a.push(1).op("EQ")
             if early == "jump":
                 a.op("ISZERO")
             a.jumpi(j)
